@@ -462,27 +462,28 @@ example :
 equations they justify -/
 theorem C12_source_shape :
     -- queue entries: every field of `EventAttempt` is written and read back; `attempts or 0`
+    -- (in the generated strings the locals of each function are called v0, v1, ... in order of occurrence)
     GenSerialShape.eventAttemptFields = ["event", "attempts", "first_attempt_at", "last_exception", "last_failed_at",
       "recovery_counts"] ∧
     GenSerialShape.queueWrittenNames = GenSerialShape.eventAttemptFields ∧
     GenSerialShape.queueReadNames = GenSerialShape.eventAttemptFields ∧
-    GenSerialShape.queueWritten = ["event=serializer.serialize(attempt.event)", "attempts=attempt.attempts or 0",
-      "first_attempt_at=attempt.first_attempt_at", "last_exception=attempt.last_exception",
-      "last_failed_at=attempt.last_failed_at", "recovery_counts=dict(attempt.recovery_counts)"] ∧
-    GenSerialShape.queueRead = ["event=serializer.deserialize(attempt.event)", "attempts=attempt.attempts",
-      "first_attempt_at=attempt.first_attempt_at", "last_exception=attempt.last_exception",
-      "last_failed_at=attempt.last_failed_at", "recovery_counts=dict(attempt.recovery_counts)"] ∧
+    GenSerialShape.queueWritten = ["event=v0.serialize(v1.event)", "attempts=v1.attempts or 0",
+      "first_attempt_at=v1.first_attempt_at", "last_exception=v1.last_exception",
+      "last_failed_at=v1.last_failed_at", "recovery_counts=dict(v1.recovery_counts)"] ∧
+    GenSerialShape.queueRead = ["event=v0.deserialize(v1.event)", "attempts=v1.attempts",
+      "first_attempt_at=v1.first_attempt_at", "last_exception=v1.last_exception",
+      "last_failed_at=v1.last_failed_at", "recovery_counts=dict(v1.recovery_counts)"] ∧
     (∀ a : Attempt, serAttempt a = { a with attempts := some (orNat a.attempts 0) }) ∧
     -- in-progress invocations: only the event is written; they come back appended to the queue as fresh entries
-    GenSerialShape.inProgressWritten = "serializer.serialize(x.event)" ∧
-    GenSerialShape.inProgressWrittenOver = "worker_state.in_progress" ∧
+    GenSerialShape.inProgressWritten = "v0.serialize(x.event)" ∧
+    GenSerialShape.inProgressWrittenOver = "v0.in_progress" ∧
     GenSerialShape.inProgressFields = ["event", "worker_id", "shared_state", "attempts", "first_attempt_at",
       "last_exception", "last_failed_at", "recovery_counts"] ∧
     GenSerialShape.inProgressDropped = ["worker_id", "shared_state", "attempts", "first_attempt_at", "last_exception",
       "last_failed_at", "recovery_counts"] ∧
-    GenSerialShape.requeued = ["event=serializer.deserialize(event_str)", "attempts=0", "first_attempt_at=None"] ∧
-    GenSerialShape.requeuedVia = "worker.queue.append" ∧
-    GenSerialShape.requeuedOver = "worker_data.in_progress" ∧
+    GenSerialShape.requeued = ["event=v0.deserialize(v1)", "attempts=0", "first_attempt_at=None"] ∧
+    GenSerialShape.requeuedVia = "v1.queue.append" ∧
+    GenSerialShape.requeuedOver = "v0.in_progress" ∧
     (∀ ss : StepState, (serStep ss).inProg = ss.inProg.map (·.ev)) ∧
     (∀ s : SerStep, (deserStep s).queue = s.queue ++ s.inProg.map freshAttempt ∧ (deserStep s).inProg = []) ∧
     -- waiters: everything but `requirements` is written; all fields are given back, `requirements` empty
@@ -491,29 +492,28 @@ theorem C12_source_shape :
       "recovery_counts"] ∧
     GenSerialShape.waiterNotWritten = ["requirements"] ∧
     GenSerialShape.waiterReadNames = GenSerialShape.waiterFields ∧
-    GenSerialShape.waiterWritten = ["waiter_id=waiter.waiter_id", "event=serializer.serialize(waiter.event)",
-      "waiting_for_event=f'{waiter.waiting_for_event.__module__}.{waiter.waiting_for_event.__name__}'",
-      "has_requirements=bool(len(waiter.requirements)) or waiter.has_requirements",
-      "resolved_event=serializer.serialize(waiter.resolved_event) if waiter.resolved_event else None",
-      "timed_out=waiter.timed_out", "attempts=waiter.attempts", "first_attempt_at=waiter.first_attempt_at",
-      "last_exception=waiter.last_exception", "last_failed_at=waiter.last_failed_at",
-      "recovery_counts=dict(waiter.recovery_counts)"] ∧
-    GenSerialShape.waiterRead = ["waiter_id=waiter_data.waiter_id", "event=serializer.deserialize(waiter_data.event)",
-      "waiting_for_event=waiting_for_event", "requirements={}", "has_requirements=waiter_data.has_requirements",
-      "resolved_event=serializer.deserialize(waiter_data.resolved_event) if waiter_data.resolved_event else None",
-      "timed_out=waiter_data.timed_out", "attempts=waiter_data.attempts", "first_attempt_at=waiter_data.first_attempt_at",
-      "last_exception=waiter_data.last_exception", "last_failed_at=waiter_data.last_failed_at",
-      "recovery_counts=dict(waiter_data.recovery_counts)"] ∧
+    GenSerialShape.waiterWritten = ["waiter_id=v0.waiter_id", "event=v1.serialize(v0.event)",
+      "waiting_for_event=f'{v0.waiting_for_event.__module__}.{v0.waiting_for_event.__name__}'",
+      "has_requirements=bool(len(v0.requirements)) or v0.has_requirements",
+      "resolved_event=v1.serialize(v0.resolved_event) if v0.resolved_event else None",
+      "timed_out=v0.timed_out", "attempts=v0.attempts", "first_attempt_at=v0.first_attempt_at",
+      "last_exception=v0.last_exception", "last_failed_at=v0.last_failed_at",
+      "recovery_counts=dict(v0.recovery_counts)"] ∧
+    GenSerialShape.waiterRead = ["waiter_id=v0.waiter_id", "event=v1.deserialize(v0.event)",
+      "waiting_for_event=v2", "requirements={}", "has_requirements=v0.has_requirements",
+      "resolved_event=v1.deserialize(v0.resolved_event) if v0.resolved_event else None",
+      "timed_out=v0.timed_out", "attempts=v0.attempts", "first_attempt_at=v0.first_attempt_at",
+      "last_exception=v0.last_exception", "last_failed_at=v0.last_failed_at",
+      "recovery_counts=dict(v0.recovery_counts)"] ∧
     (∀ w : Waiter, (serWaiter w).hasReq = (w.req.isSome || w.hasReq)) ∧
     (∀ w : SerWaiter, (deserWaiter w).req = none ∧ (deserWaiter w).hasReq = w.hasReq) ∧
     -- the per-step record, the context record, which steps are written and which are restored
-    GenSerialShape.stepWritten = ["queue=queue", "in_progress=in_progress", "collected_events=collected_events",
-      "collected_waiters=waiters"] ∧
-    GenSerialShape.contextWritten = ["version=1", "state={}", "is_running=self.is_running", "workers=workers_dict"] ∧
+    GenSerialShape.stepWrittenNames = ["queue", "in_progress", "collected_events", "collected_waiters"] ∧
+    GenSerialShape.contextWritten = ["version=1", "state={}", "is_running=self.is_running", "workers=v0"] ∧
     GenSerialShape.stepsWrittenOver = "self.workers.items()" ∧
-    GenSerialShape.unknownStepSkipped = "step_name not in base_state.workers" ∧
-    GenSerialShape.runningRestored = "base_state.is_running = serialized.is_running" ∧
-    GenSerialShape.workerAssigned = ["worker.queue", "worker.collected_events", "worker.collected_waiters"] ∧
+    GenSerialShape.unknownStepSkipped = "v0 not in v1.workers" ∧
+    GenSerialShape.runningRestored = "v0.is_running = v1.is_running" ∧
+    GenSerialShape.workerAssigned = ["v0.collected_events", "v0.collected_waiters", "v0.queue"] ∧
     -- defaults of the serialised models
     GenSerialShape.serializedAttemptFields = ["event", "attempts=0", "first_attempt_at=None", "last_exception=None",
       "last_failed_at=None", "recovery_counts=Field(default_factory=dict)"] ∧
@@ -528,36 +528,33 @@ theorem C12_source_shape :
     (({} : PStep).validate = { queue := [], inProg := [], collected := [], waiters := [] }) ∧
     -- the version marker: written = default = the one `from_dict_auto` accepts
     GenSerialShape.writtenVersion = 1 ∧ GenSerialShape.defaultVersion = 1 ∧ GenSerialShape.dispatchVersion = 1 ∧
-    GenSerialShape.dispatchTest = "'version' in data and data['version'] == 1" ∧
-    GenSerialShape.dispatchSkeleton = ["if 'version' in data and data['version'] == 1",
-      "return SerializedContext.model_validate(data)", "else", "v0 = SerializedContextV0.model_validate(data)",
-      "return SerializedContext.from_v0(v0)", "endif"] ∧
+    GenSerialShape.dispatchTest = "'version' in v0 and v0['version'] == 1" ∧
+    GenSerialShape.dispatchSkeleton = ["if 'version' in v0 and v0['version'] == 1",
+      "return SerializedContext.model_validate(v0)", "else", "v1 = SerializedContextV0.model_validate(v0)",
+      "return SerializedContext.from_v0(v1)", "endif"] ∧
     (∀ v : Option Int, isCurrentVersion v = (v == some GenSerialShape.dispatchVersion)) ∧
-    GenSerialShape.legacyRequirements = ["if 'requirements' in v and isinstance(v['requirements'], dict) and (len(v['requirements']) > 0)",
-      "v['has_requirements'] = True", "endif", "return v"] ∧
+    GenSerialShape.legacyRequirements = ["if 'requirements' in v0 and isinstance(v0['requirements'], dict) and (len(v0['requirements']) > 0)",
+      "v0['has_requirements'] = True", "endif", "return v0"] ∧
     (∀ p : PWaiter, p.validate.hasReq = (p.legacyReq || p.w.hasReq)) ∧
     -- `from_v0`
     GenSerialShape.fromV0Facts = ["names:set(v0.queues.keys()) | set(v0.in_progress.keys()) | set(v0.event_buffers.keys())",
-      "skip:step_name in v0.waiting_ids",
-      "queue-from:step_name in v0.in_progress -> event=event_str,attempts=0,first_attempt_at=None via queue_events.append",
-      "queue-from:step_name in v0.queues -> event=event_str,attempts=0,first_attempt_at=None via queue_events.append",
-      "buffers-from:step_name in v0.event_buffers over v0.event_buffers[step_name].values() if all_events key 'default'",
-      "step:queue=queue_events,in_progress=[],collected_events=collected,collected_waiters=[]",
-      "context:version=1,state=v0.state,is_running=v0.is_running,workers=workers"] ∧
+      "skip:v0 in v1.waiting_ids",
+      "queue-from:v0 in v1.in_progress -> event=v3,attempts=0,first_attempt_at=None via v2.append",
+      "queue-from:v0 in v1.queues -> event=v3,attempts=0,first_attempt_at=None via v2.append",
+      "buffers-from:v0 in v1.event_buffers over v1.event_buffers[v0].values() if v2 key 'default'",
+      "step:queue=<local>,in_progress=[],collected_events=<local>,collected_waiters=[]",
+      "context:version=1,state=v0.state,is_running=v0.is_running,workers=v1"] ∧
     (∀ v n, (v0Step v n).queue = ((assocGet v.inProgress n).getD [] ++ (assocGet v.queues n).getD []).map v0Attempt) ∧
     -- `PreContext.__init__`, `Context._workflow_run`, `Context.from_dict`, `ExternalContext.to_dict`
-    GenSerialShape.preContextParse = ["try", "previous_context_parsed = SerializedContext.from_dict_auto(previous_context)",
-      "BrokerState.from_serialized(previous_context_parsed, workflow, self._serializer)", "except ValidationError",
-      "raise ContextSerdeError(f'Context dict specified in an invalid format: {e}') from e", "endtry"] ∧
-    GenSerialShape.runInitialState = "BrokerState.from_serialized(pre.init_snapshot, workflow, pre._serializer)" ∧
-    GenSerialShape.fromDictBody = ["try", "return cls(workflow, previous_context=data, serializer=serializer)",
-      "except KeyError", "msg = 'Error creating a Context instance: the provided payload has a wrong or old format.'",
-      "raise ContextSerdeError(msg) from e", "endtry"] ∧
-    GenSerialShape.toDictBody = ["active_serializer = serializer or self._serializer", "state_data = {}",
-      "state_store = self._external_adapter.get_state_store()", "if state_store is not None",
-      "state_data = state_store.to_dict(active_serializer)", "endif", "broker_state = self._state",
-      "context = broker_state.to_serialized(active_serializer)", "context.state = state_data",
-      "return context.model_dump(mode='python')"] ∧
+    GenSerialShape.preContextParse = ["try", "v0 = SerializedContext.from_dict_auto(v1)",
+      "BrokerState.from_serialized(v0, v2, self._serializer)", "except ValidationError",
+      "raise ContextSerdeError(f'Context dict specified in an invalid format: {v3}') from v3", "endtry"] ∧
+    GenSerialShape.runInitialState = "BrokerState.from_serialized(v0.init_snapshot, v1, v0._serializer)" ∧
+    GenSerialShape.fromDictBody = ["try", "return cls(v0, previous_context=v1, serializer=v2)",
+      "except KeyError", "v3 = 'Error creating a Context instance: the provided payload has a wrong or old format.'",
+      "raise ContextSerdeError(v3) from v4", "endtry"] ∧
+    GenSerialShape.toDictSerialized = ["v0 = v1.to_serialized(v2)", "v0.state = v3",
+      "return v0.model_dump(mode='python')"] ∧
     (∀ cfg p, resumeState cfg p = deser cfg (fromDictAuto p)) := by
   refine ⟨rfl, rfl, rfl, rfl, rfl, fun _ => rfl, rfl, rfl, rfl, rfl, rfl, rfl, rfl, fun _ => rfl, fun _ => ⟨rfl, rfl⟩,
     rfl, rfl, rfl, rfl, rfl, fun _ => rfl, fun _ => ⟨rfl, rfl⟩, rfl, rfl, rfl, rfl, rfl, rfl, rfl, rfl, rfl, rfl, rfl, rfl,
